@@ -32,6 +32,18 @@ CHECKS = {
           "projection of results (integers up to 1e-6, else 1/16 grid with membership-only judgement). Scope: rings <= 6 edges on the "
           "3x3 grid, shells on the 4x4 grid with <= 2 holes, <= 4 members for unary_union; the overlay engine itself is a black box."),
     technique="TLA+ point-set region semantics; TLC-generated operand pool; recorded calls validated by TLC (trace validation)", design_ref="DESIGN.md 5 C04"),
+ "C10": dict(
+    text=("Generate -> execute -> validate. Polygons from two TLC-generated pools (Gen_BoolOps: valid octilinear polygons / multipolygons "
+          "with holes incl. point contacts; Gen_Poly: all simple general-slope lattice polygons with <= 5 vertices, 0-2 holes) are "
+          "triangulated (ear-cut, constrained / unconstrained / outer Delaunay in both trait generations), stitched back and subdivided "
+          "into monotone pieces by geo under exact maps; Trace_Tiling.tla judges every recorded call with exact integer predicates: "
+          "corners are polygon vertices, open triangles pairwise disjoint (separating edge), each inside the polygon (centroid + no "
+          "boundary edge meets the open triangle), areas add up exactly; unconstrained triangles tile the hull; monotone pieces: "
+          "vertices only, x-monotone chains, exact area, witness membership, and intersects(coordinate) for all 225 fine-lattice "
+          "points equals Pos(P,c) # E; stitched multipolygon covers the same witnesses with the same exact area."),
+    note=("Trusted: TLC, the separating-axis criterion for convex sets in the plane, exactness of the maps. Monotone pieces are judged by "
+          "necessary conditions (area + witnesses), not by an exact tiling criterion. Scope: <= 14 vertices per polygon, coordinates 0..12."),
+    technique="TLA+ exact tiling predicates; TLC-generated polygon pools; recorded calls validated by TLC (trace validation)", design_ref="DESIGN.md 5 C10"),
  "C18": dict(
     text=("PolySession.tla is the state machine of Polygon / LineString / Rect under the public constructor and mutator calls "
           "(closures = edit sequences + Ok/Err exit). TLC model-checks RingsClosed and RectOrdered over all histories within the "
